@@ -724,7 +724,10 @@ func (s *Store) ExportedServicesForPeer(ws memdb.WatchSet, peerID string, dc str
 		return 0, nil, fmt.Errorf("failed to read peering: %w", err)
 	}
 	if peering == nil {
-		return 0, &structs.ExportedServiceList{}, nil
+		// The peering may have just been deleted: report the table's index rather
+		// than zero so that the index does not fall behind what was returned
+		// while the peering existed.
+		return maxIndexTxn(tx, tablePeering), &structs.ExportedServiceList{}, nil
 	}
 
 	return exportedServicesForPeerTxn(ws, tx, peering, dc)
